@@ -43,17 +43,27 @@ Theorem TIE_unique_owner_holder : forall s h d dl k m,
 Proof. exact gen_unique_owner_holder. Qed.
 Print Assumptions TIE_unique_owner_holder.
 
+(* allocate_taco_structure, for EVERY order / mode list / dimensions / mode ordering that its validation accepts
+   ([alloc_valid]) and every machine state in which the identities it will use are fresh: it returns a new structure
+   s = next whose array fields are all NULL (sd_fields = []), registered in the weak dictionary under s with a new
+   holder whose "**indices" slot is aligned with the mode list and owns nothing, and has no "vals" slot; nothing else
+   changes (heap, free trace, wrappers, other holders). *)
+Theorem TIE_allocate_spec : forall modes dims ordering k m,
+  alloc_valid modes dims ordering ->
+  lookup (m_next m) (m_wkd m) = None -> (forall s', ~ In (s', m_next_meta m) (m_wkd m)) ->
+  ~ In (m_next m) (map fst (m_structs m)) ->
+  runs_to (allocate_taco_structure (ints modes) (ints dims) (ints ordering)) k m
+          (fun m' r => r = PStruct (m_next m) /\ allocated modes m m').
+Proof. exact gen_allocate_spec. Qed.
+Print Assumptions TIE_allocate_spec.
+
 (* The regenerated call sequence of TensorMethod.__call__ (allocate the output, wrap it in a Tensor, marshal the
    arguments, run the kernel, take_ownership_of_arrays, test the return value, return the Tensor) IS Ownership.eval_call:
-   same final state as seen by Ownership.v, same new wrapper, no free() call.  For every output format (modes, dims,
-   ordering accepted by allocate_taco_structure), every set of inputs that are Tensors of the machine, any position of
-   the output among the kernel's parameters, a kernel that returns 0 and allocates what the shape says.
-   GIVEN [allocate_spec]: the specification of the regenerated allocate_taco_structure (a fresh structure with NULL
-   arrays registered with a fresh holder that owns nothing, aligned with the mode list).  allocate_spec is NOT proved
-   for all mode lists here (it is an instance-checked specification, [TIE_allocate_spec_instance], and the self-check
-   compares the regenerated allocate_taco_structure with the real one at every run); everything after the allocation
-   is proved. *)
-Theorem TIE_call_equiv_given_allocate : allocate_spec ->
+   same final state as seen by Ownership.v, same new wrapper, no free() call.  For every output format accepted by
+   allocate_taco_structure, every set of inputs that are Tensors of the machine, any position of the output among the
+   kernel's parameters, a kernel that returns 0 and allocates what the shape says, in every machine state whose view
+   satisfies C13's invariant (every reachable one). *)
+Theorem TIE_call_equiv :
   forall nm modes dims ordering out formats bound args ins inf sh k m,
   alloc_valid modes dims ordering ->
   Inv (abs nm m) -> wkd_ok m -> (forall s', ~ In (s', m_next_meta m) (m_wkd m)) ->
@@ -68,19 +78,43 @@ Theorem TIE_call_equiv_given_allocate : allocate_spec ->
                            (PDictV formats) k m = (m', Ret (PTensor (S (m_next m)))) /\
     eval_call (abs nm m) ins sh = (abs nm m', S (m_next m), [], Ok) /\
     m_frees m' = m_frees m.
-Proof. exact gen_call_equiv. Qed.
-Print Assumptions TIE_call_equiv_given_allocate.
+Proof. exact gen_call_equiv_full. Qed.
+Print Assumptions TIE_call_equiv.
 
-Theorem TIE_allocate_spec_instance : forall k,
-  runs_to (allocate_taco_structure (ints [0; 1]%Z) (ints [3; 4]%Z) (ints [1; 0]%Z)) k m_init
-          (fun m' r => r = PStruct 0 /\ allocated [0; 1]%Z m_init m').
-Proof. exact allocate_spec_instance. Qed.
-Print Assumptions TIE_allocate_spec_instance.
+(* The kernel returns non-zero: RuntimeError is raised AFTER take_ownership_of_arrays; the machine state is the one of a
+   successful call (Ownership.v sees eval_call's Ok state), only no name gets bound: nothing leaks on this path (the
+   cascade of Ownership.sweep then frees each block once; see TIE_runtime_error_state_is_eval_del). *)
+Theorem TIE_call_runtime_error :
+  forall nm modes dims ordering out formats bound args ins inf sh k m,
+  alloc_valid modes dims ordering ->
+  Inv (abs nm m) -> wkd_ok m -> (forall s', ~ In (s', m_next_meta m) (m_wkd m)) ->
+  Forall2 (arg_of ((S (m_next m), m_next m) :: m_tensors m)
+                  (all_arguments out (PTensor (S (m_next m))) bound)) (map fst formats) args ->
+  nth_error args (k_out k) = Some (m_next m) ->
+  k_ret k <> 0%Z ->
+  input_fields (abs nm m) ins = Some inf ->
+  (forall d, sd_modes d = modes -> kernel_blocks (k_empty k) d (S (S (m_next m))) = shape_blocks sh) ->
+  exists m',
+    TensorMethod_call_tail (PDictV bound) (ints dims) (PList (map PMode modes)) (ints ordering) (PStr out)
+                           (PDictV formats) k m = (m', Raise RuntimeError) /\
+    eval_call (abs nm m) ins sh = (abs nm m', S (m_next m), [], Ok) /\
+    m_frees m' = m_frees m.
+Proof. exact gen_call_runtime_error_full. Qed.
+Print Assumptions TIE_call_runtime_error.
 
-(* C13_eval_preserves_existing on the regenerated TensorMethod.__call__ (given allocate_spec): in a machine state
-   whose view is a reachable state of Ownership.v the call makes no free() call, keeps every existing block, structure
-   and holder unchanged, and the holder it fills owns only blocks that did not exist before the call. *)
-Theorem TIE_eval_preserves_existing_given_allocate : allocate_spec ->
+(* In Ownership.v that state is the state of the history  Eval n ins sh ; Del n  for an unused name n: the theorems of
+   C13 about histories (freed exactly once, no leak after the cascade) cover the RuntimeError path. *)
+Theorem TIE_runtime_error_state_is_eval_del : forall st n ins sh st' w fr,
+  eval_call st ins sh = (st', w, fr, Ok) -> lookup n (names st') = None ->
+  let '(st1, _, _) := apply_op st (Eval n ins sh) in
+  fst (fst (apply_op st1 (Del n))) = st'.
+Proof. exact runtime_error_state_is_eval_del. Qed.
+Print Assumptions TIE_runtime_error_state_is_eval_del.
+
+(* C13_eval_preserves_existing on the regenerated TensorMethod.__call__: in a machine state whose view is a reachable
+   state of Ownership.v the call makes no free() call, keeps every existing block, structure and holder unchanged, and
+   the holder it fills owns only blocks that did not exist before the call. *)
+Theorem TIE_eval_preserves_existing :
   forall eager ops nm modes dims ordering out formats bound args ins inf sh k m,
   abs nm m = t_state (run eager ops) ->
   alloc_valid modes dims ordering ->
@@ -100,5 +134,25 @@ Theorem TIE_eval_preserves_existing_given_allocate : allocate_spec ->
     (forall s h, In (s, h) (wkd (abs nm m)) -> In (s, h) (wkd (abs nm m'))) /\
     (forall s h e, In (s, h) (wkd (abs nm m')) -> In e h ->
        In (s, h) (wkd (abs nm m)) \/ ~ In (haddr e) (map fst (heap (abs nm m)))).
-Proof. exact gen_eval_preserves_existing. Qed.
-Print Assumptions TIE_eval_preserves_existing_given_allocate.
+Proof. exact gen_eval_preserves_existing_full. Qed.
+Print Assumptions TIE_eval_preserves_existing.
+
+(* taco_structure_to_cffi (Tensor.from_* through from_aos, __setstate__) performs Ownership.fill_from_python on the
+   structure its own call of allocate_taco_structure creates: for every valid format and Python data of the matching
+   shape (nothing for a dense level, a pos and a crd list for a compressed level; the value checks of the validation
+   section are the parameter `validation`, here None = they pass), the holder gets one owning ffi.new entry (HNew) for
+   exactly pos and crd of every compressed level and for vals, in that order, the C structure points to the same
+   blocks, the blocks are new CffiNew blocks, nothing is freed and nothing else changes. *)
+Theorem TIE_fill_equiv : forall nm modes dims ordering datas vals k m,
+  alloc_valid modes dims ordering -> data_shape modes datas ->
+  lookup (m_next m) (m_wkd m) = None -> (forall s', ~ In (s', m_next_meta m) (m_wkd m)) ->
+  NoDup (map fst (m_structs m)) -> ~ In (m_next m) (map fst (m_structs m)) ->
+  exists m1 m',
+    allocate_taco_structure (ints modes) (ints dims) (ints ordering) k m = (m1, Ret (PStruct (m_next m))) /\
+    allocated modes m m1 /\
+    taco_structure_to_cffi (PList datas) (PList vals) (ints modes) (ints dims) (ints ordering) None k m
+      = (m', Ret (PStruct (m_next m))) /\
+    abs nm m' = fill_from_python (abs nm m1) (m_next m) (nsparse modes + 1) /\
+    m_frees m' = m_frees m.
+Proof. exact gen_fill_equiv. Qed.
+Print Assumptions TIE_fill_equiv.
